@@ -238,6 +238,19 @@ def swallow_loop(markdir=None):
             mark(markdir, 'swallowed')
 
 
+def partial_on_terminate(markdir=None, sec=0.4):
+    """Co-operative target: when terminated it hands back what it has got so far - a value that takes `sec` seconds
+    to rebuild on the receiving side."""
+    mark(markdir, 'entered')
+    n = 0
+    try:
+        while True:
+            n += 1
+            time.sleep(0.002)
+    except WorkerTerminatedError:
+        return SlowBox('partial', sec)
+
+
 def sleep_c(sec=30):
     time.sleep(sec)
 
